@@ -461,6 +461,7 @@ Section Reader.
   | FCnt16             (* get_counted_bytes(2); kept with its length prefix *)
   | FCnt8              (* get_counted_bytes(); kept with its length prefix *)
   | FRest1             (* get_remaining(), FormError when empty *)
+  | FChk (k : Z)       (* get_remaining() checked by the type's constructor: chk k *)
   | FMax16 (m : Z)     (* a 16-bit field whose value the constructor requires to be <= m *)
   | FTxt.              (* one or more <character-string>s up to the end *)
 
@@ -473,6 +474,47 @@ Section Reader.
   Definition in_types : list Z := [1; 28; 42; 49; 65; 45; 36; 35; 22; 23; 26; 33; 64; 11].
 
   Definition zmem (x : Z) (l : list Z) : bool := existsb (Z.eqb x) l.
+
+  (* content checks of constructors reached from from_wire (any exception becomes FormError) *)
+  Definition is_alnum (c : Z) : bool :=
+    ((48 <=? c) && (c <=? 57)) || ((65 <=? c) && (c <=? 90)) || ((97 <=? c) && (c <=? 122)).
+  (* dns.rdtypes.util.Bitmap: windows strictly ascending, 1..32 octets each *)
+  Fixpoint bitmap_ok (fuel : nat) (last : Z) (b : list Z) : bool :=
+    match b with
+    | [] => true
+    | w :: l :: rest =>
+        match fuel with
+        | O => false
+        | S f => (last <? w) && (1 <=? l) && (l <=? 32) && (l <=? zlen rest)
+                 && bitmap_ok f w (skipn (Z.to_nat l) rest)
+        end
+    | _ => false
+    end.
+  Definition ds_len_ok (dt n : Z) (zero_len : option Z) : bool :=
+    if dt =? 0 then match zero_len with Some z => n =? z | None => false end
+    else if dt =? 1 then n =? 20
+    else if (dt =? 2) || (dt =? 3) then n =? 32
+    else if dt =? 4 then n =? 48
+    else true.
+  Definition chk (k : Z) (b : list Z) : bool :=
+    if k =? 1 then      (* DSBase: key tag, algorithm, digest type, digest *)
+      match b with _ :: _ :: _ :: dt :: dg => ds_len_ok dt (zlen dg) None | _ => false end
+    else if k =? 5 then (* CDS: digest type 0 is the delete form, one octet *)
+      match b with _ :: _ :: _ :: dt :: dg => ds_len_ok dt (zlen dg) (Some 1) | _ => false end
+    else if k =? 2 then (* ZONEMD: serial, scheme, hash algorithm, digest *)
+      match b with
+      | _ :: _ :: _ :: _ :: sc :: ha :: dg =>
+          negb (sc =? 0) && negb (ha =? 0) &&
+          (if ha =? 1 then zlen dg =? 48 else if ha =? 2 then zlen dg =? 64 else true)
+      | _ => false
+      end
+    else if k =? 3 then (* CAA: flags, counted tag (bytes.isalnum), value *)
+      match b with
+      | _ :: l :: rest => (1 <=? l) && (l <=? zlen rest) && forallb is_alnum (firstn (Z.to_nat l) rest)
+      | _ => false
+      end
+    else if k =? 4 then bitmap_ok (length b) (-1) b
+    else false.
 
   (* None: a codec exists but is not modelled *)
   Definition schema_of (rdclass rdtype : Z) : option (list fld) :=
@@ -500,6 +542,14 @@ Section Reader.
     else if (rdtype =? 106) || (rdtype =? 104) then Some [FFix 2; FFix 8]
     else if rdtype =? 13 then Some [FCnt8; FCnt8]
     else if rdtype =? 19 then Some [FCnt8]
+    (* KEY; DS DLV; CDS; ZONEMD; CAA; CSYNC; NSEC3 *)
+    else if rdtype =? 25 then Some [FFix 4; FRest]
+    else if (rdtype =? 43) || (rdtype =? 32769) then Some [FChk 1]
+    else if rdtype =? 59 then Some [FChk 5]
+    else if rdtype =? 63 then Some [FChk 2]
+    else if rdtype =? 257 then Some [FChk 3]
+    else if rdtype =? 62 then Some [FFix 6; FChk 4]
+    else if rdtype =? 50 then Some [FFix 4; FCnt8; FCnt8; FChk 4]
     (* NSEC3PARAM; URI *)
     else if rdtype =? 51 then Some [FFix 4; FCnt8]
     else if rdtype =? 256 then Some [FFix 4; FRest1]
@@ -546,6 +596,9 @@ Section Reader.
         do _ <- rd_bytes endp (cur + 2) (Z.to_nat l);
         do b <- rd_bytes endp cur (2 + Z.to_nat l);
         dec_fields r origin endp (cur + 2 + Z.to_nat l) (PB b :: acc)
+    | FChk k :: r =>
+        do b <- rd_bytes endp cur (endp - cur);
+        if chk k b then dec_fields r origin endp endp (PB b :: acc) else Lib eFormError
     | FRest1 :: r =>
         if Nat.eqb (endp - cur) 0 then Lib eFormError
         else do b <- rd_bytes endp cur (endp - cur); dec_fields r origin endp endp (PB b :: acc)
